@@ -62,7 +62,7 @@ func flakyStream(c *lib.Ctx) {
 
 	names := []string{"src/a.go", "lib.py"}
 	states3 := []core.LineCoverage{core.NotExecutable, core.Uncovered, core.Covered}
-	n := c.Scale(20, 260)
+	n := c.Scale(30, 300)
 	t0 := time.Now()
 	for i := 0; i < n; i++ {
 		r := c.Rng.Fork()
@@ -160,6 +160,7 @@ func flakyStream(c *lib.Ctx) {
 		c.Case(lib.App("CFlake", lib.Bool(inSubrepo), lib.Nat(flakiness), lib.List(coqAtts),
 			coqCovObj(testsByName(&state.Coverage), state.Coverage.Files)), in, fmt.Sprint("f", jsAtts, inSubrepo), ran >= 2 && differ)
 		os.RemoveAll(dir)
+		retire(state)
 	}
 	c.Note("flaky targets: %d targets through test.Test in %v", n, time.Since(t0).Round(time.Millisecond))
 }
